@@ -30,9 +30,10 @@ LEVEL_NOTE = ("Modelled per region and tied through the hook: variable creation,
               "write-back; the VPSC solver itself is an oracle of the model (its answers are taken from the dump; that they satisfy "
               "the constraints is C01/C02 and is re-checked here on the written positions: [region-sep]). NOT modelled: which "
               "segments exist and their channel limits (buildOrthogonalNudgingSegments / buildOrthogonalChannelInfo), the point "
-              "orders (PtOrderMap) behind CmpLineOrder - of region formation and ordering only necessary conditions are checked "
+              "orders (PtOrderMap) behind CmpLineOrder - of region formation and ordering necessary conditions are checked "
               "on the dump (no overlap across regions of one pass; adjacent segments respect the position / fixedOrder / order rules "
-              "of CmpLineOrder); CmpLineOrder::operator() and updatePositionsFromSolver are hand models (not "
+              "of CmpLineOrder), each proved sound for the modelled loops (regions_do_not_overlap for the region-growing loop, "
+              "linesort_respects_rules for linesort's insertion loop with any comparator agreeing with those rules); CmpLineOrder::operator() and updatePositionsFromSolver are hand models (not "
               "regenerated). The hypothesis `nextSep o s <= s` of the retry theorems is proved for exact arithmetic "
               "(reduction_nonincreasing_exact) and observed for doubles (the dumped distances equal the model's IEEE evaluation). "
               "Without the hook in the tree under test the harness prints `hook 0` and only the route-level checks run. "
